@@ -133,6 +133,20 @@ PROPS = {
         "assumptions": ["code identifiers stand for code hashes (collision-free)", "the published info carries the bytecode when the code hash changed (info.code.is_some(): revm attaches it on CREATE and EIP-7702; exercised by e2e)"],
         "explanation": "Theorems code_entry_current, repr_code, repr_code_real (no hypothesis beyond the account being the logical one), codeChangedOk_real, redelegation_keeps_storage: after any sequence of deploy / set / re-point / clear / set-again / delete / recreate, a later transaction resolves exactly the code in-order execution sees, and storage is untouched by re-delegation.",
     },
+    "C10": {
+        "lean_modules": ["Props.C10", "Props.C08"],
+        "harness": [
+            {"sub": "cache-history", "quick": {"cases": 1500}, "thorough": {"cases": 100000}, "timeout": 3000},
+            {"sub": "cache-race", "quick": {"cases": 1000}, "thorough": {"cases": 60000}, "timeout": 3000},
+            e2e("lifecycle,mixed,code", 90, 3000, label="bundle"),
+        ],
+        "rule": "cache-history: random histories over 4 accounts x 3 slots x 4 codes on one ParallelState and one revm State (same backing store): commits of realistic finalized journal states (selfdestruct incl. created+destroyed, CREATE over absent / destroyed / balance-only accounts with constructor storage, EIP-161 empty touch, updates with SSTOREs whose original value is the current one, code changes), increment_balances (non-zero amounts, distinct addresses: the documented precondition), drain_balances, merge_transitions (Reverts / PlainState), take_bundle or parallel_take_bundle per block or accumulated over 1-3 consecutive blocks on the same state; after EVERY operation the pending transitions are compared (canonical rendering), after every third and after every block all accounts, codes and slots readable through the database interface, after every extraction state, contracts, reverts; cache-race: 1-3 reader threads (cache-filling storage_ref through the worker view) against 1-3 ordered commits (destroy / create / empty-touch / update) of one account under random / PCT / sticky controller schedules and the directed F1 schedule (reader held between database fetch and cache insert while the account is destroyed); afterwards all reads must equal revm State's after the same commits, and the totally ordered hook-event trace (cache_read_begin, cache_fill_storage with the status the reader saw, cache_commit_begin, cache_set_status, cache_clear_storage, cache_write_slots) is replayed through the PROVEN Cache.step (one model state per slot): every event must be enabled, the values returned to readers and the values served at the end must equal the model's, and the model's served values its logical ones; e2e (bundle): " + E2E_RULE,
+        "trusted_base": E2E_TRUST,
+        "modelled": ["ParallelStateView::db_storage (hit / status read + fetch / guarded insert-if-absent with status re-check) and the order status-update -> storage.remove -> update_storage_slot of ParallelCacheState::apply_account_state as Model/Cache.lean, per (address, slot)", "the account/storage lifecycle (destroy, create, update) as in Model/Repr.lean (commitL)"],
+        "assumptions": ["DashMap shard guards give mutual exclusion between the guarded insert and storage.remove (one critical section = one model action)", "an account without nonce and code has no storage in the backing store (revm's own assumption when it marks such an account in-memory)", "the CacheAccountInfo status machine, the bundle builder (bundle.rs) and balance increments/drains are NOT modelled in Lean: they are decided by the history differential against revm's State only"],
+        "partial": ["status state machine, transitions, bundle/revert construction: differential only (no theorem)", "account and code cache fills (insert-if-absent without a clearing counterpart) are not modelled"],
+        "explanation": "Theorems cache_coherent / cache_entry_current (for any number of readers, any history of destroy / create / update commits and any interleaving, whenever no commit is in progress the cache serves exactly what revm's State serves; nothing a reader left behind is stale) and f1_original_order_violates (the original order of finding F1 is refuted in the model). Findings F1 and F6 repaired (known_findings.json).",
+    },
     "C12": {
         "lean_modules": ["Props.C12"],
         "harness": [e2e("delegated,code,lifecycle", 240, 6000, configs="w2,w3,seq", label="create-guard")],
